@@ -11,8 +11,8 @@ PID = "C01"
 
 def rtc_matmul(case_names, tier):
     import torch
+    from contracts import zoo  # (first: it puts VERIF_REPO in front of sys.path)
     import linear_operator
-    from contracts import zoo
     from contracts.rtc_common import Recorder
 
     rec = Recorder(PID)
